@@ -50,10 +50,14 @@ pub fn replay_exit(prop: &str, path: &str, sigs: Vec<String>) -> ! {
 const QUICK_RUNS_THOROUGH: [&str; 14] = ["c01", "c02", "c03", "c05", "c06", "c09", "c10", "c11", "c12", "c14", "c15", "c16", "c17", "c20"];
 
 pub fn dispatch(id: &str, tier: Tier, replay: Option<&str>) {
-    let tier = if tier == Tier::Quick && replay.is_none() && QUICK_RUNS_THOROUGH.contains(&id) && std::env::var("VERIF_NO_PROMOTE").is_err() {
+    let promoted = QUICK_RUNS_THOROUGH.contains(&id) && std::env::var("VERIF_NO_PROMOTE").is_err();
+    let tier = if tier == Tier::Quick && replay.is_none() && promoted {
         let _ = crate::ctx::TIER_LABEL.set("quick");
         Tier::Thorough
     } else {
+        if tier == Tier::Thorough && promoted {
+            crate::ctx::DEEP.store(true, std::sync::atomic::Ordering::Relaxed);
+        }
         tier
     };
     match id {
